@@ -157,6 +157,7 @@ pub struct SemanticData<'a> {
     pub undefined_rules: BTreeSet<&'a str>,
     pub undefined_tokens: BTreeSet<&'a str>,
     pub used_in_ordered_choice: FxHashSet<NodeRef>,
+    pub return_in_option_context: FxHashSet<NodeRef>,
 }
 
 #[derive(Default)]
@@ -825,6 +826,7 @@ impl<'a> OrderedChoiceValidator {
                         sema,
                         regex,
                         sema.used_in_ordered_choice.contains(&rule.syntax()),
+                        sema.used_in_ordered_choice.contains(&rule.syntax()),
                     );
                 }
             }
@@ -839,6 +841,7 @@ impl<'a> OrderedChoiceValidator {
         sema: &mut SemanticData<'a>,
         regex: Regex,
         active_choice: bool,
+        returns_option: bool,
     ) {
         if active_choice {
             sema.used_in_ordered_choice.insert(regex.syntax());
@@ -855,7 +858,7 @@ impl<'a> OrderedChoiceValidator {
             Regex::Concat(concat) => {
                 let mut active_choice = active_choice;
                 for op in concat.operands(cst) {
-                    Self::calc_containment_regex(cst, sema, op, active_choice);
+                    Self::calc_containment_regex(cst, sema, op, active_choice, returns_option);
                     if matches!(op, Regex::Commit(_)) {
                         active_choice = false;
                     }
@@ -864,34 +867,34 @@ impl<'a> OrderedChoiceValidator {
             Regex::OrderedChoice(choice) => {
                 let ops = choice.operands(cst).collect::<Vec<_>>();
                 for op in &ops[..ops.len() - 1] {
-                    Self::calc_containment_regex(cst, sema, *op, true);
+                    Self::calc_containment_regex(cst, sema, *op, true, true);
                 }
                 let op = *ops.last().unwrap();
-                Self::calc_containment_regex(cst, sema, op, active_choice);
+                Self::calc_containment_regex(cst, sema, op, active_choice, returns_option);
             }
             Regex::Alternation(alt) => {
                 for op in alt.operands(cst) {
-                    Self::calc_containment_regex(cst, sema, op, active_choice);
+                    Self::calc_containment_regex(cst, sema, op, active_choice, returns_option);
                 }
             }
             Regex::Star(star) => {
                 if let Some(op) = star.operand(cst) {
-                    Self::calc_containment_regex(cst, sema, op, active_choice);
+                    Self::calc_containment_regex(cst, sema, op, active_choice, returns_option);
                 }
             }
             Regex::Optional(opt) => {
                 if let Some(op) = opt.operand(cst) {
-                    Self::calc_containment_regex(cst, sema, op, active_choice);
+                    Self::calc_containment_regex(cst, sema, op, active_choice, returns_option);
                 }
             }
             Regex::Plus(plus) => {
                 if let Some(op) = plus.operand(cst) {
-                    Self::calc_containment_regex(cst, sema, op, active_choice);
+                    Self::calc_containment_regex(cst, sema, op, active_choice, returns_option);
                 }
             }
             Regex::Paren(paren) => {
                 if let Some(op) = paren.inner(cst) {
-                    Self::calc_containment_regex(cst, sema, op, active_choice);
+                    Self::calc_containment_regex(cst, sema, op, active_choice, returns_option);
                 }
             }
             Regex::Symbol(_)
@@ -902,8 +905,13 @@ impl<'a> OrderedChoiceValidator {
             | Regex::NodeElision(_)
             | Regex::NodeMarker(_)
             | Regex::NodeCreation(_)
-            | Regex::Commit(_)
-            | Regex::Return(_) => {}
+            | Regex::Commit(_) => {}
+            Regex::Return(ret) => {
+                // the enclosing rule function or attempt closure returns `Option<()>`
+                if returns_option {
+                    sema.return_in_option_context.insert(ret.syntax());
+                }
+            }
         };
     }
     fn check_containment(
